@@ -131,6 +131,9 @@ def run(repo: Repo, tier: str, res: CheckResult, seed: int = 0) -> None:
     # generated programs
     from .. import genprog
     genprog.c06_checks(repo, tier, res, seed)
+    from .c11 import caches_not_carried_over
+    caches_not_carried_over(repo, res, prop="C06", rule="SIB.loaders-shared-across-debug-trail-modes",
+                            consequence="a retort derived with replace(debug_trail=...) runs the loaders of the original's mode")
     res.assumptions = list(ASSUMPTIONS)
 
 
